@@ -7,9 +7,52 @@ ORACLES = [rc.o3_no_unsaved_loss]
 RESTORE = None
 
 
+def uncached_histories(seed, n):
+    """A tracked file that is IN the workspace while the object of its recorded version is NOT in the cache - after
+    `track --no-commit`, after `remove --from-cache`, after a track/carry-in whose move into the cache failed (records are
+    saved first) - and then a recheck that wants to replace the workspace file: `--recheck-method <another method>` for each
+    of the four methods (without --force: judged by o3), serially and in parallel, alone and next to a target that can be
+    restored.  There is nothing to restore the file from: it stays."""
+    import random
+    from repo_check import W, T, CI, RC
+    rng = random.Random(f'c03-uncached-{seed}')
+    out = []
+    methods = ['copy', 'symlink', 'hardlink', 'reflink']
+    states = ['no-commit', 'removed', 'removed-all-versions', 'no-commit-new-version', 'move-failed']
+    for i in range(n):
+        st = states[i % len(states)]
+        m0 = methods[(i // len(states)) % 4]                      # method the path is recorded with
+        cfg = {'algo': (i + seed) % 4, 'method': rng.choice(['copy', m0]), 'tob': rng.choice(['auto', 'auto', 'binary', 'text'])}
+        f, g = rng.sample(['notes.txt', 'd/model.bin', 'noext', 'sp ace.txt', 'ünï/dätä.txt'], 2)
+        X = bytes(f'only copy {i}/{seed}\n', 'ascii') + bytes(rng.choice(b'abcdefgh\n') for _ in range(rng.choice([0, 50, 8200]))) + rng.choice([b'', b'\x00'])
+        np_ = lambda: rng.random() < 0.5
+        h = [W(g, b'companion ' + X), T([g], no_parallel=np_())]
+        if st == 'no-commit':
+            h += [W(f, X), T([f], method=m0, no_commit=True, no_parallel=np_())]
+        elif st == 'removed':
+            h += [W(f, X), T([f], method=m0, no_parallel=np_()), RC([f], method='copy'), {'op': 'remove', 'targets': [f]}]
+        elif st == 'removed-all-versions':
+            h += [W(f, X + b'v1'), T([f], method=m0), W(f, X), CI([f]), RC([f], method='copy'), {'op': 'remove', 'targets': [f], 'all_versions': True}]
+        elif st == 'no-commit-new-version':
+            h += [W(f, X + b'v1'), T([f], method=m0), W(f, X), T([f], no_commit=True, no_parallel=np_())]
+        else:
+            h += [W(f, X), T([f], method=m0, no_parallel=np_(), cache_blocked=[f])]
+        others = [m for m in methods if m != m0]
+        rng.shuffle(others)
+        for m in others[:rng.choice([2, 3])]:
+            h.append(RC([f] if rng.random() < 0.6 else [g, f], method=m, no_parallel=np_()))
+        h += [T([f]), CI([f])]                                     # what a re-run does with the state
+        out.append((f'uncached-{st}-{m0}-{i}', cfg, h))
+    return out
+
+
+def extra_corpus(chk):
+    return uncached_histories(chk.seed, 20 if chk.tier == 'quick' else 200)
+
+
 def run(chk):
     # besides the model-tied histories: commands that meet an I/O fault while they copy a data file (oracles only)
-    return rc.run_property(chk, 'C03', ORACLES, restore=RESTORE, fault_stream=36 if chk.tier == 'quick' else 400)
+    return rc.run_property(chk, 'C03', ORACLES, restore=RESTORE, fault_stream=36 if chk.tier == 'quick' else 400, extra_corpus=extra_corpus(chk))
 
 
 def replay(chk, data):
